@@ -206,7 +206,7 @@ def run(v) -> None:
     shapes = [(1, 1), (2, 3), (4, 16), (33, 257)] if quick else [(1, 1), (2, 3), (3, 7), (4, 16), (8, 64), (33, 257), (16, 1000)]
     threads = [1, 3, 16] if quick else list(range(1, 17))
     chunks = [0, 1] if quick else [0, 1, 2, 7]
-    reps = 3 if quick else 10
+    reps = 3 if quick else 30
     maxt = numba.config.NUMBA_NUM_THREADS
     for name in KERNELS:
         cname = {"downsample_1d_mean": "downsample_1d_mean_parallel", "downsample_2d_mean_flat": "downsample_2d_mean_parallel"}.get(name, name)
